@@ -175,3 +175,16 @@ check('C10',
       'model value; 12 value-preserving round trips.',
       'reference mc/models/atomic.py; xs:anyURI / xs:NOTATION lexical spaces and error codes are not judged; fractional seconds beyond microseconds are outside the alphabet (implementation-defined precision)',
       'DESIGN.md section 3 C10')
+check('C12',
+      'bounded-exhaustive enumeration of regular expressions and subject strings against an own parser and backtracking matcher for the XSD/XPath regex grammar',
+      'Patterns: every token sequence of length <= 2 (thorough <= 3) over a 40-token alphabet (literals, dot, alternation, groups, the quantifiers incl. '
+      'ranges, a reversed range and reluctant forms, positive / negated / range / subtraction classes, every multi-character escape, category and block escapes, '
+      'anchors, a back-reference, a non-capturing group, stray brackets, an unknown escape) plus one more token over a 19-token reduced alphabet; every '
+      'character-class body of <= 2 (<= 3) tokens over a 21-token class alphabet, plain and negated. Four flavours: XSD 1.0 and 1.1 through '
+      'translate_pattern with the schema options + re.compile, XPath 2.0 and 3.1 through fn:matches. Validity must equal the reference parser (RegexError / '
+      'FORX0002, no re.error or other exception); for valid patterns the match result on each of 65 subject strings (classes: 18-character universe incl. '
+      'non-ASCII digit, NBSP, underscore, symbols) must equal the reference matcher. 35-pattern corpus x 12 flag sets (s m i x q) x subjects; invalid flags. '
+      'fn:replace, fn:tokenize, fn:analyze-string against the reference leftmost match spans and against each other (FORX0003 for zero-length matches, '
+      'replace with $0 is the identity, analyze-string parts concatenate to the input).',
+      'reference mc/models/xsdregex.py (the re module is not used by the oracle); constructs on which XSD 1.0/1.1 or XML editions disagree are not judged: hyphen in the middle of a class, \\i \\c outside Latin, negated classes and category escapes under the i flag, unknown block names, bare braces, (?: with the 2.0 parser',
+      'DESIGN.md section 3 C12')
